@@ -231,7 +231,10 @@ def keysvalid(eng, o, d):
     if mat:
         parts.append(FO.fold(eng, ver, "valid_mat"))
     if deg2:
-        parts.append(FO.fold(eng, ver, "valid_quso" if spin else "valid_qubo"))
+        vq = FO.fold(eng, ver, "valid_quso" if spin else "valid_qubo")
+        parts.append(vq)
+        # fold lifting of the pointwise fact  sq(k) == k /\ len(k) <= 2  ==>  len(sq(k)) <= 2
+        eng.facts.add(z3.Implies(z3.And(FO.fold(eng, ver, "scanon" if spin else "bcanon"), FO.fold(eng, ver, "deg2")), vq))
     return SV(z3.And(*parts) if parts else z3.BoolVal(True), "bool")
 
 
@@ -260,7 +263,8 @@ def distinct(eng, a, b):
 @spec
 def is_empty(eng, d):
     ver = eng.store_of(d)
-    return SV(ver.dom == z3.K(ver.ksort, z3.BoolVal(False)), "bool")
+    zero = z3.RealVal(0) if ver.vsort == T.Real else z3.IntVal(0)
+    return SV(z3.And(ver.dom == z3.K(ver.ksort, z3.BoolVal(False)), ver.val == z3.K(ver.ksort, zero)), "bool")
 
 
 @spec
@@ -278,3 +282,9 @@ def forall_key(eng, f):
     t = eng.tobool(body)
     t = z3.BoolVal(t) if isinstance(t, bool) else t
     return SV(z3.ForAll([q], t), "bool")
+
+
+@spec
+def isnumber(eng, x):
+    from .values import is_num
+    return is_num(x) or isinstance(x, bool) or (isinstance(x, SV) and x.t in ("real", "int"))
